@@ -6,6 +6,7 @@ package main
 // reference tree keep their identity (rules name them explicitly).
 
 import (
+	"go/types"
 	"strings"
 	"go/token"
 
@@ -166,6 +167,17 @@ func deepFuncs(fn *ssa.Function) []*ssa.Function {
 					seen[h] = true
 					out = append(out, h)
 					walk(h, d+1)
+				}
+				// a new top-level function handed over as a callback (what used to be a closure)
+				for _, a := range c.Common().Args {
+					if ct, ok := a.(*ssa.ChangeType); ok {
+						a = ct.X
+					}
+					if hf, ok := a.(*ssa.Function); ok && !seen[hf] && isNewHelper(hf) {
+						seen[hf] = true
+						out = append(out, hf)
+						walk(hf, d+1)
+					}
 				}
 			}
 		}
@@ -470,4 +482,119 @@ func refParamIndex(callee *ssa.Function, name string) int {
 		}
 	}
 	return -1
+}
+
+// structParamFieldOrigins: fa addresses a field of a struct-typed parameter (held by
+// value in its local cell, or passed by pointer).  The field's value is the one the
+// struct literal carries at every production call site; nil when that is not known
+// for every site (the load then stays an opaque origin).
+func structParamFieldOrigins(fa *ssa.FieldAddr) []ssa.Value {
+	var par *ssa.Parameter
+	switch b := fa.X.(type) {
+	case *ssa.Parameter:
+		par = b
+	case *ssa.Alloc:
+		st := cellStores(b)
+		if len(st) == 1 {
+			par, _ = st[0].(*ssa.Parameter)
+		}
+	}
+	if par == nil || curProg == nil {
+		return nil
+	}
+	fn := par.Parent()
+	if fn == nil || !curProg.InP(fn) {
+		return nil
+	}
+	if _, isStruct := deref(par.Type()).Underlying().(*types.Struct); !isStruct {
+		return nil
+	}
+	idx := -1
+	for i, q := range fn.Params {
+		if q == par {
+			idx = i
+		}
+	}
+	if idx < 0 {
+		return nil
+	}
+	name := fieldAddrName(fa)
+	if i := strings.IndexByte(name, '.'); i >= 0 {
+		name = name[i+1:]
+	}
+	sites := callSitesOf(fn)
+	if len(sites) == 0 || len(sites) > 4 {
+		return nil
+	}
+	var out []ssa.Value
+	for _, s := range sites {
+		a := s.Common().Args
+		if idx >= len(a) {
+			return nil
+		}
+		f := compositeFields(a[idx])
+		if f == nil {
+			return nil
+		}
+		v, ok := f[name]
+		if !ok {
+			return nil // zero value at this site: unknown to the matchers
+		}
+		out = append(out, v)
+	}
+	return out
+}
+
+// failStopV is failStopOK along a call string: the call fails its own function, and
+// every helper call on the string fails the function it is made from.
+func failStopV(s VSite) (bool, string) {
+	call := s.Call()
+	if call == nil {
+		return false, "not a call"
+	}
+	if ok, why := failStopOK(call.Parent(), call); !ok {
+		return false, why
+	}
+	for i := len(s.Ctx) - 1; i >= 0; i-- {
+		k := s.Ctx[i]
+		if errResultIndex(k.Common().Signature()) < 0 {
+			return false, "the extracted helper " + calleeName(k) + " does not return the error"
+		}
+		if ok, why := failStopOK(k.Parent(), k); !ok {
+			return false, why
+		}
+	}
+	return true, ""
+}
+
+// resolveThroughCtx maps a value that is a parameter of a virtually inlined helper to the
+// argument passed on the given call string (innermost call last).
+func resolveThroughCtx(v ssa.Value, ctx []ssa.CallInstruction) ssa.Value {
+	for i := len(ctx) - 1; i >= 0; i-- {
+		var p *ssa.Parameter
+		switch x := v.(type) {
+		case *ssa.Parameter:
+			p = x
+		case *ssa.UnOp:
+			// by-value parameter spilled into its local cell
+			if a, ok := x.X.(*ssa.Alloc); ok {
+				if st := cellStores(a); len(st) == 1 {
+					p, _ = st[0].(*ssa.Parameter)
+				}
+			}
+		}
+		if p == nil {
+			return v
+		}
+		callee := ctx[i].Common().StaticCallee()
+		if callee == nil || p.Parent() != callee {
+			continue
+		}
+		for j, q := range callee.Params {
+			if q == p && j < len(ctx[i].Common().Args) {
+				v = ctx[i].Common().Args[j]
+			}
+		}
+	}
+	return v
 }
